@@ -88,6 +88,10 @@ def solve(formula, display=True, log=False, params={}):
         y = None
 
     try:
+        if grb.Status in (gp.GRB.INFEASIBLE, gp.GRB.INF_OR_UNBD,
+                          gp.GRB.UNBOUNDED):
+            # an incumbent of an unbounded MIP is not an optimal solution
+            raise AttributeError('no optimal solution')
         solution = Solution('Gurobi', grb.ObjVal, np.array(grb.getAttr('X')),
                             grb.Status, grb.Runtime, y=y)
     except AttributeError:
